@@ -11,6 +11,11 @@ const (
 	msgTypeObjectOrArray string = `object/array`
 )
 
-var emptyEntity = struct{}{}
+// emptyEntityType is a private type so that the "no value" marker used in the
+// filter lists can never be equal to a value found in a user's document
+// (a plain struct{}{} leaf used to be mistaken for the marker).
+type emptyEntityType struct{}
+
+var emptyEntity = emptyEntityType{}
 var emptyList = []interface{}{emptyEntity}
 var fullList = []interface{}{true}
